@@ -39,7 +39,7 @@ PROP = {'engine': 'c15',
          'runtime.MemStats.TotalAlloc delta per input <= units*2*MaxPackageLength + 32*(bytes_sent + bytes_the_node_wrote_back) + 1 MiB '
          '(units = frames / messages of the input), and <= 2*MaxPackageLength + 1 MiB in the seconds after the remote left. A fixed '
          'regression list (one witness per defect found on the unchanged tree, plus the 1 GiB / 4 GiB-1 handshake lengths and two '
-         '10300-message cache overflows) runs in every tier and for every seed',
+         '10300-message cache overflows) runs in every tier and for every seed Surface b also lets the node itself write (Peer.WriteMsg under a 60 ms write deadline, 12 B / 4 kB / 300 kB) while the remote takes 0..all bytes of the frame and stalls: the write has to return and the connection\'s goroutines have to end.',
  'assumptions': ['the scripted transport of surface c models p2p.Peer towards the manager (blocking ReadMsg, per-write deadline, idempotent Close '
                  'ending in a DeletePeer event); its write deadlines run 20x faster than the real ones',
                  'allocation is measured for the whole worker process (one input at a time, harness buffers built before the measurement starts); '
